@@ -105,8 +105,10 @@ def step (s : DState) (line : String) : DState × Option String :=
     | some T =>
       let mask := (flags.toList.dropWhile (· != 'm')).drop 1 |>.takeWhile (fun c => c == '0' || c == '1') |>.map (· == '1')
       let toks := flags.splitOn "."
+      -- "Ei"/"Ci": the method takes an interface{}; the generator passes the pointer as for a pointer parameter
       let kind (p v : String) : Option UserFn :=
-        if toks.contains p then some .ptr else if toks.contains v then some .val else none
+        if toks.contains p || toks.contains (String.ofList (p.toList.take 1) ++ "i") then some .ptr
+        else if toks.contains v then some .val else none
       let d : Decl := { under := T, external := flags.contains 'e', priv := flags.contains 'p', privMask := mask,
                         eqM := kind "Ep" "Ev", cmpM := kind "Cp" "Cv", hashM := kind "Hp" "Hv",
                         copyM := kind "Dp" "Dv" }
